@@ -948,6 +948,17 @@ impl Program {
                 c.aligned = None;
                 *removed += 1;
             }
+            // known finding (C02): a zero-width bit-field only aligns the next member when bindgen
+            // knows that member's offset; an anonymous struct/union member has none
+            let mut k = 0usize;
+            while k + 1 < c.fields.len() {
+                if c.fields[k].bits == Some(0) && c.fields[k + 1].name.is_empty() && matches!(c.fields[k + 1].ty, FieldTy::Inline(_)) {
+                    c.fields.remove(k);
+                    *removed += 1;
+                } else {
+                    k += 1;
+                }
+            }
             // known finding (C03): the allocation unit of a union's bit-fields is sized by the
             // last field of a run and emptied by a zero-width member: widest last, no `:0`
             if c.is_union {
